@@ -247,6 +247,35 @@ func specOf(err error) ErrSpec {
 	return ErrSpec{Type: "other:" + fmt.Sprintf("%T", err)}
 }
 
+// specMatch decides whether the returned typed error names the violated element / attribute. It compares
+// the Go type and the element or attribute NAME (case-insensitively, so "SAML version" names Version);
+// free-text fields (Reason) are compared only where they distinguish two different checks (Expired).
+func specMatch(want, got ErrSpec) bool {
+	if want.Type != got.Type {
+		return false
+	}
+	norm := func(s string) string { return strings.ToLower(strings.ReplaceAll(s, " ", "")) }
+	switch want.Type {
+	case "ErrMissingElement":
+		return norm(want.Tag) == norm(got.Tag) && norm(want.Attr) == norm(got.Attr)
+	case "ErrParsing":
+		return norm(want.Tag) == norm(got.Tag)
+	case "ErrInvalidValue":
+		key := norm(want.Key)
+		if key == "samlversion" {
+			key = "version"
+		}
+		if !strings.Contains(norm(got.Key), key) {
+			return false
+		}
+		if want.Reason == saml2.ReasonExpired || got.Reason == saml2.ReasonExpired {
+			return want.Reason == got.Reason
+		}
+		return true
+	}
+	return false
+}
+
 // profileValid is the executable restatement of the property's predicate list, on the model.
 func profileValid(m *h.ResponseModel, sp h.SPConfig) bool {
 	if m.Version.Str() != "2.0" {
@@ -433,7 +462,7 @@ func checkC03(c C03Case) h.Outcome {
 
 	matches := func(got ErrSpec) bool {
 		for _, e := range c.Expect {
-			if e == got {
+			if specMatch(e, got) {
 				return true
 			}
 		}
